@@ -218,6 +218,41 @@ where
             },
         ),
     );
+    // accepted by every other key type that supports the scheme, with the same fields (C11)
+    {
+        let mut enc = Vec::new();
+        e.encode(&mut enc);
+        fn x<T: EnrKey>(enc: &[u8], seq: u64, nid: &NodeId, sig: &[u8], pairs: &[(Vec<u8>, Vec<u8>)]) -> &'static str {
+            let r = guard(|| {
+                let mut b: &[u8] = enc;
+                Enr::<T>::decode(&mut b).map(|o| {
+                    b.is_empty()
+                        && o.seq() == seq
+                        && o.node_id() == *nid
+                        && o.signature() == sig
+                        && o.iter().map(|(k, v)| (k.clone(), v.to_vec())).collect::<Vec<_>>() == pairs
+                })
+            });
+            match r {
+                None => "panic",
+                Some(Ok(true)) => "1",
+                Some(Ok(false)) => "d",
+                Some(Err(_)) => "0",
+            }
+        }
+        let pairs: Vec<(Vec<u8>, Vec<u8>)> = e.iter().map(|(k, v)| (k.clone(), v.to_vec())).collect();
+        let (seq, nid, sig) = (e.seq(), e.node_id(), e.signature().to_vec());
+        put(
+            "xdec",
+            format!(
+                "k256:{},libsecp:{},ed:{},comb:{}",
+                x::<enr::k256::ecdsa::SigningKey>(&enc, seq, &nid, &sig, &pairs),
+                x::<enr::secp256k1::SecretKey>(&enc, seq, &nid, &sig, &pairs),
+                x::<enr::ed25519_dalek::SigningKey>(&enc, seq, &nid, &sig, &pairs),
+                x::<enr::CombinedKey>(&enc, seq, &nid, &sig, &pairs),
+            ),
+        );
+    }
     // conversions and iteration
     put(
         "conv",
